@@ -1022,6 +1022,9 @@ func runC12(r *Run) {
 	data = append(data, map[string]interface{}{"items": []interface{}{map[string]interface{}{"A": map[string]interface{}{"B": 0}}, map[string]interface{}{"A": map[string]interface{}{"B": 1, "C": map[string]interface{}{"D": map[string]interface{}{"E": 1}}}}}},
 		map[string]interface{}{"items": []interface{}{map[string]interface{}{"A": map[string]interface{}{"B": 2}}}})
 	exprs = append(exprs, "any items as x { x.A.B == 1 }", "all items as _, x { x.A.B != 7 }", "any items as x { x.A.C.D.E == 1 }", "any items as i, x { x.A.B == 1 and i != 9 }", `any items as x { x["A"]["B"] == 1 }`)
+	// keys that differ in case only: the visiting order of a map is a function of the keys, not of the call
+	data = append(data, map[string]interface{}{"tw": map[string]interface{}{"a": map[string]interface{}{"x": 1}, "A": 5}, "tz": map[string]interface{}{"Zone": map[string]interface{}{"x": 1}, "app": 5, "APP": 5, "zone": map[string]interface{}{"x": 2}}})
+	exprs = append(exprs, "any tw as _, v { v.x == 1 }", "all tw as k, v { v.x != 1 }", "any tz as _, v { v.x == 2 }")
 	dataBefore := make([]string, len(data))
 	for i, d := range data {
 		dataBefore[i] = sIface(d)
